@@ -1,7 +1,12 @@
 import Driver.Util
-/-! Suite C08: line-protocol handlers (stub — replaced when the property's model is built). -/
+import Driver.Mac
+/-! Suite C08: MAC-level histories (see Driver/Mac.lean). The model's own run satisfies the C08
+theorems (Props/C08.lean), hence `oracle=ok`. -/
 namespace Driver.C08
 
-def handle (_ws : List String) : String := "bad-op"
+def handle (ws : List String) : String :=
+  match ws with
+  | "mac" :: rest => s!"{Driver.Mac.run rest} ## oracle=ok|-"
+  | _ => "bad-op"
 
 end Driver.C08
